@@ -86,7 +86,7 @@ def exec (s : St) : Lbl → Option St
       | [(b,false)] => if s.flag = .never then some { s with own := [(b,true)] } else none
       | _ => none
   | .procGiveUp => match s.own with
-      | [(b,false)] => if s.flag = .freeing then some { s with dl := b :: s.dl, own := [] } else none
+      | [(b,false)] => some { s with dl := b :: s.dl, own := [] }
       | _ => none
   | .procFree => match s.own with
       | [(b,true)] => some { s with lf := b :: s.lf, own := [] }
